@@ -63,7 +63,9 @@ class Result:
     def feed(self, *arrays) -> None:
         """mix observed data into the history digest (replay must reproduce it)"""
         for a in arrays:
-            if isinstance(a, np.ndarray):
+            if isinstance(a, np.ndarray) and a.dtype == object:
+                self.digest.update(repr([str(x) for x in a.tolist()]).encode())
+            elif isinstance(a, np.ndarray):
                 self.digest.update(str(a.dtype).encode())
                 self.digest.update(np.ascontiguousarray(a).tobytes())
             else:
